@@ -7,6 +7,7 @@ import (
 	"fmt"
 	"image"
 	"image/color"
+	"image/draw"
 	"math"
 	"strings"
 	"time"
@@ -335,6 +336,16 @@ func c14ImageCheck(cs c14ImgCase) (bad bool, msg string) {
 		dstRect = image.Rect(40, -7, 40+rect.Dx()+4, -7+rect.Dy()+3)
 	}
 	dst := newConcrete(cs.Dst, dstRect)
+	if sub, ok := src.(subImager); ok && cs.Seed%3 == 1 && cs.Src != "NYCbCrA" && cs.Src != "NYCbCrA-strides" {
+		// window to window: the source is a window of its image and the destination the same window of
+		// an equally large canvas (equal strides, both wider than the rows that are processed)
+		canvas := newConcrete(cs.Dst, rect)
+		rng.Fill(pixOf(canvas))
+		rect = image.Rect(rect.Min.X+2, rect.Min.Y+1, rect.Max.X-5, rect.Max.Y-3)
+		dstRect = rect
+		src = sub.SubImage(rect)
+		dst = canvas.(subImager).SubImage(rect).(draw.Image)
+	}
 	rng.Fill(pixOf(dst)) // a reused destination: every pixel must be overwritten, transparent ones too
 	if cs.Fn == "LineariseImage" {
 		s.LineariseImage(dst, src, cs.Par)
